@@ -1089,6 +1089,32 @@ impl<'a, 'b> Gen<'a, 'b> {
             5 => {
                 self.stat("numeric_for");
                 let var = self.fresh_name();
+                if self.t.bool(56) {
+                    // the limit and the step read an OUTER local that the loop variable then shadows:
+                    // the three header expressions belong to the enclosing scope
+                    self.stat("numeric_for_header_reads_shadowed_outer");
+                    let outer = [1.0, 2.0, 3.0][self.t.choose(3)];
+                    let times = 2 + self.t.choose(4);
+                    let limit = if self.t.bool(128) {
+                        bin(BinOp::Mul, nm(&var), num(times as f64))
+                    } else {
+                        num((times * 2) as f64)
+                    };
+                    self.scopes.push(vec![]);
+                    self.declare(&var, Kind::Num, false);
+                    self.scopes.push(vec![]);
+                    self.declare(&var, Kind::Num, true);
+                    self.loop_depth += 1;
+                    let nb = 1 + self.t.choose(3);
+                    let body = self.block(nb, d - 1);
+                    self.loop_depth -= 1;
+                    self.scopes.pop();
+                    self.scopes.pop();
+                    return Some(Stmt::Do(Block::new(vec![
+                        Stmt::Local { is_const: false, names: vec![Binding::new(var.clone())], values: vec![num(outer)] },
+                        Stmt::NumFor { var: Binding::new(var.clone()), start: num(1.0), limit, step: Some(nm(&var)), body },
+                    ])));
+                }
                 let (start, limit, step) = match self.t.choose(4) {
                     0 => (num(1.0), self.small_int(), None),
                     1 => (self.small_int(), num(0.0), Some(num(-1.0))),
@@ -1263,11 +1289,20 @@ impl<'a, 'b> Gen<'a, 'b> {
             _ => {
                 // multi-value tail provides the last variables
                 self.stat("local_multi_tail");
-                for k in kinds.iter().take(n - 1) {
+                // sometimes the tail has to supply several variables (fewer values than names)
+                let lead = if n >= 2 && self.t.bool(90) {
+                    self.stat("local_multi_tail_supplies_several");
+                    self.t.choose(n - 1)
+                } else {
+                    n - 1
+                };
+                for k in kinds.iter().take(lead) {
                     values.push(self.e_kind(k, d));
                 }
                 values.push(self.multi(d));
-                *kinds.last_mut().unwrap() = Kind::Any;
+                for k in kinds.iter_mut().skip(lead) {
+                    *k = Kind::Any;
+                }
             }
         }
         for k in &kinds {
